@@ -89,7 +89,7 @@ def main():
         },
         "engines": [
             {"name": "purl-verif", "path": "/verif/harness", "serves_properties": sorted(CHECKS),
-             "kind_free_text": "Rust harness linked against /repo/purl: token-language explorer, reference model, value monitors"},
+             "kind_free_text": "Rust harness linked against /repo/purl: token-language explorer (Engine A), deviation-bounded spelling and fault explorer (B), explicit-state BFS over API histories and callback programs (C, cross-checked by stateright for C11), hash-order enumeration through the purl_verif hook (D), scalar / short-string sweeps and size ladders (E), operation-sequence exploration over independent objects (H); reference model and value monitors"},
         ],
         "checks": checks,
         "notes": "All checks are deterministic bounded-exhaustive explorations of the real code; see DESIGN.md. known_findings.json lists genuine defects (all repaired by fix: commits).",
